@@ -195,7 +195,9 @@ pub fn c12_oracle(case: &ConvCase, exp: &Expected, obs: &Observation) -> Verdict
         Some(i) => i + 1 < case.conv.reqs.len() || !case.conv.trailing.is_empty(),
         None => false,
     };
-    let mut g = if bytes_follow { Good::nontrivial() } else { Good::trivial() };
+    let long_lived = case.conv.reqs.len() >= 30;
+    let mut g = if bytes_follow || long_lived { Good::nontrivial() } else { Good::trivial() };
+    g = g.class_if(long_lived, "long-lived-connection");
     g = g
         .class(if exp.ends_after.is_some() { "ends" } else { "persistent" })
         .class(format!("transport:{:?}", case.transport))
